@@ -39,7 +39,7 @@ def relate(a, b):
     return None
 
 
-POP_ALGS = ["NLOPT_GN_CRS2_LM", "NLOPT_GN_ISRES", "NLOPT_GN_ESCH", "NLOPT_GD_STOGO_RAND", "NLOPT_GN_MLSL", "NLOPT_GN_MLSL_LDS", "NLOPT_GD_MLSL"]
+POP_ALGS = ["NLOPT_GN_CRS2_LM", "NLOPT_GN_ISRES", "NLOPT_GN_ESCH", "NLOPT_GD_STOGO_RAND", "NLOPT_GN_MLSL", "NLOPT_GN_MLSL_LDS", "NLOPT_GD_MLSL", "NLOPT_GD_MLSL_LDS"]
 
 
 def run(ctx):
@@ -82,7 +82,7 @@ def run(ctx):
         pc, pd = [], []
         for nm in POP_ALGS:
             for _ in range(6 if ctx.thorough else 2):
-                p = problems.gen_problem(rng, A, alg_name=nm, with_constraints=False)
+                p = problems.gen_problem(rng, A, alg_name=nm, with_constraints=False, maxeval=rng.choice([150, 300]))   # several generations
                 p.pop("pop", None)
                 g = rng.choice([7, 16, 33])
                 q = dict(p)
